@@ -123,7 +123,8 @@ pub fn explore(ctx: &Ctx) {
     let lats = [48.6, -48.6, 50.0, -50.0, 55.0, -55.0, 58.0, -58.0, 60.0, -60.0, 62.0, -62.0, 64.0, -64.0];
     let zs: Vec<(f64, f64)> = if quick { vec![(25.0, 2.0)] } else { vec![(25.0, 2.0), (-135.0, -9.0), (170.0, 12.0)] };
     let edge = [(ymd(1600, 1, 1), ymd(1600, 12, 31)), (ymd(2399, 1, 1), ymd(2399, 12, 31))];
-    let methods: Vec<Method> = if quick { vec![Method::Mwl, Method::Egyptian, Method::Isna] } else { ANGLE6.to_vec() };
+    // the six angle methods, plus the two whose Fajr is angle-based while Isha is Maghrib + 90 min
+    let methods: Vec<Method> = if quick { vec![Method::Mwl, Method::Egyptian, Method::Isna, Method::UmmAlQurra] } else { NAMED8.to_vec() };
     // (zone index, methods, date ranges): ~0.6 CPU-s per (site, method, year) bounds the thorough tier to
     // two centuries for the first zone and 25 years for the others
     let mut plan: Vec<(usize, Vec<Method>, Vec<(NaiveDate, NaiveDate)>)> = vec![];
